@@ -736,6 +736,17 @@ class InlineCtx:
                     if m is not None and not any(U(d) in ("property",) for d in m[1].decorator_list):
                         hfn, hmi = m[1], m[0].mod
                         skip = 0 if any(U(d) == "staticmethod" for d in m[1].decorator_list) else 1
+            elif isinstance(f, ast.Attribute) and isinstance(f.value, ast.Name) and f.attr.startswith("_") and not f.attr.startswith("__") and f.attr not in KEEP_METHODS:
+                r = self.repo.resolve(self.mi, f.value.id)
+                if r is not None and isinstance(r[1], ast.ClassDef):
+                    ci = next((c for c in self.repo.classes.get(r[1].name, []) if c.node is r[1]), None)
+                    m = self.repo.method(ci, f.attr) if ci else None
+                    if m is not None:
+                        decos = [U(d) for d in m[1].decorator_list]
+                        if "staticmethod" in decos:
+                            hfn, hmi, skip = m[1], m[0].mod, 0
+                        elif "classmethod" in decos:
+                            hfn, hmi, skip = m[1], m[0].mod, 1
             if hfn is None or id(hfn) in pe._stack:
                 continue
             if any(isinstance(n, (ast.Yield, ast.YieldFrom)) for n in ast.walk(hfn)):
@@ -1199,6 +1210,8 @@ def loop_body_paths(outer: ast.FunctionDef, loop: ast.For, pre_env: Optional[dic
             break
         if isinstance(st, ast.Assign) and len(st.targets) == 1:
             t = st.targets[0]
+            if isinstance(st.value, (ast.Dict, ast.List, ast.Set)) or (isinstance(st.value, ast.Call) and isinstance(st.value.func, ast.Name) and st.value.func.id in ("dict", "list", "set")):
+                continue  # a container that the loop fills keeps its name
             val = subst(st.value, env)
             if isinstance(t, ast.Name):
                 env[t.id] = val
